@@ -3,6 +3,7 @@ import PoxModel.Proofs.FlowTable
 import PoxModel.Proofs.MatchSubsume
 import PoxModel.Proofs.MatchSelf
 import PoxModel.Proofs.MatchV
+import PoxModel.Proofs.Frame
 /-! # C03 — flow match and lookup semantics agree with OpenFlow 1.0
 
 Property theorems only.  Model: `Model/Match.lean` (`ofp_match`), `Model/FlowTable.lean` (`FlowTable` and its operations, for any sort
@@ -32,6 +33,12 @@ The same clauses for `Variant.full` = HEAD + `fixes/C04_D36_tos_dscp.diff` (ToS 
 hypothesis about ECN bits left: `matches_iff_full`, `extract_ok_full`, `lookup_spec_wire_full`, `history_lookup_wire_full`,
 `subsumes_iff_full`, `flow_from_packet_full`, `flow_from_packet_exact_full`.  The harness selects `Variant.full` as soon as the tree behaves
 that way on the ToS witness.
+
+**From bytes.**  The theorems above are stated on frame descriptions `PHdr`.  `Spec/OF10Frame.lean` (`Spec.Frame.parse`) reads the
+description off the *bytes* of a frame per 802.3 / 802.2 / 802.1Q / RFC 791 (one tag type, 0x8100; fragment = MF or offset ≠ 0) —
+the harness gives model and standard this description, not the packet library's —, `frame_complete_regular` shows that complete frames
+meet the side condition, and `extract_ok_bytes_repaired`, `lookup_spec_bytes_repaired`, `matches_iff_bytes_full`,
+`lookup_spec_bytes_full` are the clauses with a byte sequence in place of the description.
 
 What the `_repaired` theorems still assume: ToS values without ECN bits (D36, `matches_tos_defect`, gone with `Variant.full`), complete frames (`regularG false`;
 `irregular_l4_witness`, `irregular_l3_witness` show what the code does otherwise — the standard is silent there), 16-bit priorities.
@@ -361,6 +368,59 @@ theorem flow_from_packet_exact_full (p : PHdr) (port : Nat) (hr : regularG false
     Variant.full.isWildcarded (Variant.full.ofWire (packFlowMod (Variant.full.pktMatch p port))) = false :=
   Variant.full.selfflow_exact_pkt rfl p port hr
 
+/-! ## from the bytes of a frame
+
+`Spec.Frame.parse` is the standard-side reading of a byte sequence (Ethernet II / 802.2 SNAP, the one 802.1Q tag type 0x8100, IPv4 with
+its flag bits and IHL, ARP, TCP / UDP / ICMP).  A complete frame's description is regular, so every clause above holds with the
+*bytes* as input. -/
+
+/-- complete frames meet the side condition of the extraction / lookup theorems -/
+theorem frame_complete_regular (fr : List Nat) (p : PHdr) (h : Spec.Frame.parse fr = some (p, true)) : regularG false p = true :=
+  Spec.Frame.parse_regular fr p h
+
+/-- **Extraction from bytes**, the code as it stands -/
+theorem extract_ok_bytes_repaired (fr : List Nat) (p : PHdr) (port : Nat) (h : Spec.Frame.parse fr = some (p, true)) :
+    ExtractOk p (Variant.repaired.extract true p (some port)) (Spec.headers p port) :=
+  extract_ok_repaired p port (frame_complete_regular fr p h)
+
+/-- **Lookup from bytes**, the code as it stands -/
+theorem lookup_spec_bytes_repaired (fs : List Spec.Flow) (hfs : ∀ f ∈ fs, f.priority ≤ 0xffff ∧ f.mtch.nwTos % 4 = 0)
+    (fr : List Nat) (p : PHdr) (port : Nat) (h : Spec.Frame.parse fr = some (p, true)) (hpt : pktTos p % 4 = 0) :
+    Spec.IsBestSig fs (Spec.headers p port)
+      ((Variant.repaired.entryForPacket (Variant.repaired.install fs) p port).map (·.data)) :=
+  lookup_spec_wire_repaired fs hfs p port (frame_complete_regular fr p h) hpt
+
+/-- **Matching from bytes**, all repairs -/
+theorem matches_iff_bytes_full (r : OfMatch) (fr : List Nat) (p : PHdr) (port : Nat) (h : Spec.Frame.parse fr = some (p, true)) :
+    Variant.full.mww false (Variant.full.ofWire r) (Variant.full.pktMatch p port) = Spec.matchHdr r (Spec.headers p port) :=
+  matches_iff_full r p port (frame_complete_regular fr p h)
+
+/-- **Lookup from bytes**, all repairs -/
+theorem lookup_spec_bytes_full (fs : List Spec.Flow) (hfs : ∀ f ∈ fs, f.priority ≤ 0xffff)
+    (fr : List Nat) (p : PHdr) (port : Nat) (h : Spec.Frame.parse fr = some (p, true)) :
+    Spec.IsBestSig fs (Spec.headers p port) ((Variant.full.entryForPacket (Variant.full.install fs) p port).map (·.data)) :=
+  lookup_spec_wire_full fs hfs p port (frame_complete_regular fr p h)
+
+/-- Ethernet header (dst 02:…:02, src 02:…:01) with type `t`, then `rest` -/
+def ethBytes (t : Nat) (rest : List Nat) : List Nat := [2, 0, 0, 0, 0, 2, 2, 0, 0, 0, 0, 1, t / 256, t % 256] ++ rest
+/-- IPv4 header (IHL 5, total length 28) with flag/offset word `fw`, protocol UDP, 10.1.1.1 → 10.2.2.2, then a UDP header 1000 → 80 -/
+def ipUdpBytes (fw : Nat) : List Nat :=
+  [0x45, 0, 0, 28, 0, 0, fw / 256, fw % 256, 64, 17, 0, 0, 10, 1, 1, 1, 10, 2, 2, 2, 0x03, 0xe8, 0, 80, 0, 8, 0, 0]
+
+/-- what the bytes say, on the inputs a library is most easily wrong about: only 0x8100 is a tag (a 0x9100 / 0x88a8 frame is untagged,
+    its dl_type that value); only MF / a non-zero offset make a fragment (reserved bit 0x8000 and DF 0x4000 do not) -/
+example : (Spec.Frame.parse (ethBytes 0x8100 ([0x60, 5, 8, 0] ++ ipUdpBytes 0))).map (fun r => (r.1.vlan, (Spec.headers r.1 1).dlType, (Spec.headers r.1 1).tpDst, r.2))
+    = some (some { id := 5, pcp := 3, ethType := 0x0800 }, 0x0800, 80, true) := by decide
+example : (Spec.Frame.parse (ethBytes 0x9100 ([0x60, 5, 8, 0] ++ ipUdpBytes 0))).map (fun r => (r.1.vlan, (Spec.headers r.1 1).dlVlan, (Spec.headers r.1 1).dlType, (Spec.headers r.1 1).nwSrc, r.2))
+    = some (none, 0xffff, 0x9100, 0, true) := by decide
+example : (Spec.Frame.parse (ethBytes 0x88a8 ([0x60, 5, 8, 0] ++ ipUdpBytes 0))).map (fun r => (r.1.vlan, (Spec.headers r.1 1).dlType, r.2))
+    = some (none, 0x88a8, true) := by decide
+example : (Spec.Frame.parse (ethBytes 0x0800 (ipUdpBytes 0x8000))).map (fun r => ((Spec.headers r.1 1).tpSrc, (Spec.headers r.1 1).tpDst, r.2)) = some (1000, 80, true) := by decide
+example : (Spec.Frame.parse (ethBytes 0x0800 (ipUdpBytes 0xc000))).map (fun r => ((Spec.headers r.1 1).tpSrc, (Spec.headers r.1 1).tpDst, r.2)) = some (1000, 80, true) := by decide
+example : (Spec.Frame.parse (ethBytes 0x0800 (ipUdpBytes 0x2000))).map (fun r => ((Spec.headers r.1 1).tpSrc, (Spec.headers r.1 1).tpDst, r.2)) = some (0, 0, true) := by decide
+example : (Spec.Frame.parse (ethBytes 0x0800 (ipUdpBytes 0x8001))).map (fun r => ((Spec.headers r.1 1).tpSrc, (Spec.headers r.1 1).nwProto, r.2)) = some (0, 17, true) := by decide
+example : (Spec.Frame.parse (ethBytes 0x0800 ((ipUdpBytes 0).take 24))).map (·.2) = some false := by decide
+
 /-! ## subsumption (used by the non-strict MODIFY / DELETE of C04) -/
 
 /-- The standard's field-wise subsumption test is subsumption: `a` matches every 12-tuple `b` matches.  (About the Spec alone;
@@ -516,6 +576,33 @@ theorem irregular_l3_witness :
     regularG false noL3Frame = false ∧ (Variant.repaired.extract true noL3Frame (some 1)).nwSrc = none ∧
     (Variant.repaired.ofWire r).matchesWith false (Variant.repaired.fromPacket noL3Frame 1) = false ∧
     Spec.matchHdr r (Spec.headers noL3Frame 1) = true := by decide
+
+/-- what the packet library makes of a RARP frame (EtherType 0x8035): it parses the body with its `arp` class -/
+def rarpFrame : PHdr := { arpFrame 3 with typ := 0x8035 }
+/-- the bytes of such a frame: Ethernet type 0x8035, then hardware type 1, protocol 0x0800, lengths 6 / 4, opcode 3, addresses -/
+def rarpBytes : List Nat :=
+  ethBytes 0x8035 [0, 1, 8, 0, 6, 4, 0, 3, 2, 0, 0, 0, 0, 1, 10, 0, 0, 1, 0, 0, 0, 0, 0, 0, 10, 0, 0, 2]
+
+/-- (candidate repair: `fixes/C03_rarp_not_arp.diff`)  Outside `regularG`, but *reachable*: the packet library parses RARP frames (0x8035)
+    with its ARP class, and `from_packet` takes nw_proto / nw_src / nw_dst from any `arp` object, where Figure 4 / Table 3 fill them for
+    dl_type 0x0806 only.  Read off its bytes the frame has no ARP header at all (`Spec.Frame.parse`: nothing behind the Ethernet header,
+    complete), and for that description the extraction theorem leaves the three fields unassigned.  Matching and lookup are not
+    affected (a flow's nw fields are ignored unless its dl_type is 0x0800 / 0x0806, which this frame's is not); what a controller
+    reads from `from_packet` is. -/
+theorem extract_rarp_defect :
+    regularG false rarpFrame = false ∧
+    (Variant.full.pktHeaders true rarpFrame (some 1)).nwProto = some 3 ∧ (Variant.full.pktHeaders true rarpFrame (some 1)).nwSrc = some 0x0a000001 ∧
+    (Spec.headers rarpFrame 1).dlType = 0x8035 ∧ (Spec.headers rarpFrame 1).nwProto = 0 ∧ (Spec.headers rarpFrame 1).nwSrc = 0 ∧
+    (Spec.Frame.parse rarpBytes).map (fun r => (r.1.l3, r.2)) = some (L3.other, true) ∧
+    (∀ p, Spec.Frame.parse rarpBytes = some (p, true) → (Variant.full.pktHeaders true p (some 1)).nwSrc = none) := by
+  refine ⟨by decide, by decide, by decide, by decide, by decide, by decide, by decide, ?_⟩
+  intro p hp
+  have h : Spec.Frame.parse rarpBytes = some ({ src := 0x020000000001, dst := 0x020000000002, typ := 0x8035, llc := none, vlan := none, l3 := .other }, true) := by
+    decide
+  rw [h] at hp
+  simp only [Option.some.injEq, Prod.mk.injEq, and_true] at hp
+  subst hp
+  decide
 
 /-! ## definitional -/
 
